@@ -21,6 +21,7 @@ from . import api
 
 
 OUTCOME_CLS = NamedTupleClass('Outcome', ['ret', 'value', 'exc', 'err'])
+CALLEE_OUTCOME_CLS = NamedTupleClass('CalleeOutcome', ['ret', 'value', 'exc', 'err', 'raised'])
 
 
 class DomS(object):
@@ -72,6 +73,8 @@ def fresh_of_dom(it, dom, name):
         for a, d in (dom.attrs or {}).items():
             o.attrs[a] = fresh_of_dom(it, d, '%s.%s' % (name, a))
         return o
+    if 'exc' in dom.kinds:
+        return ExcInst('OtherException')          # class, args and text are not under our control
     if 'hostfn' in dom.kinds:
         s = ctx.fresh_val(name, kinds=(OBJ,))
         ctx.assume(s.pay(OBJ, 0) == CLS_OTHER)
@@ -111,7 +114,7 @@ def dom_membership(it, dom, v):
         return True
     if dom.has_const:
         return True
-    if dom.parts is not None or 'pyobj' in dom.kinds or 'hostfn' in dom.kinds or 'symmap' in dom.kinds or 'prod' in dom.kinds \
+    if dom.parts is not None or 'pyobj' in dom.kinds or 'exc' in dom.kinds or 'hostfn' in dom.kinds or 'symmap' in dom.kinds or 'prod' in dom.kinds \
             or 'ddict' in dom.kinds:
         return True
     if isinstance(v, Sym):
@@ -150,6 +153,9 @@ class Contract(object):
             if isinstance(n, ast.FunctionDef):
                 self.fns[n.name] = FuncRef(specmod, decl.name + '.' + n.name, n, is_spec=True)
             elif isinstance(n, ast.Assign) and isinstance(n.targets[0], ast.Name):
+                if n.targets[0].id in ('pre', 'post', 'spec', 'abstract', 'claim', 'attrs', 'post_native'):
+                    # would be ignored silently: the clause has to be a def in the class body
+                    raise ValueError('contract %s: %s must be defined with def, not assigned' % (decl.name, n.targets[0].id))
                 self.assigns[n.targets[0].id] = n.value
         self.args = decl.get('args') or {}
         self.cases = decl.get('cases') or [{}]
@@ -233,6 +239,20 @@ class Contract(object):
 
     # -- call by contract (modular: callers never see the body)
     def apply(self, it, fn, args, kwargs):
+        # the outcome the contract produced is kept in the ghost log: the caller's postcondition may refer to it
+        # (spec builtin callee_outcome) to state its own result as a function of the callee's
+        log = it.ctx.log
+        try:
+            rv = self._apply(it, fn, args, kwargs)
+        except PyRaise as pr:
+            log.append(('outcome', self.target, Obj(CALLEE_OUTCOME_CLS, {
+                'ret': False, 'value': None, 'exc': pr.cls, 'err': pr.value if pr.cls == 'XLError' else None,
+                'raised': pr.value})))
+            raise
+        log.append(('outcome', self.target, Obj(CALLEE_OUTCOME_CLS, {'ret': True, 'value': rv, 'exc': None, 'err': None, 'raised': None})))
+        return rv
+
+    def _apply(self, it, fn, args, kwargs):
         ctx = it.ctx
         frame = Frame(fn.module)
         it.bind_args(fn.node.args, args, kwargs, frame, Frame(fn.module))
